@@ -87,7 +87,13 @@ structure Sess where
   outs : Array String
   stc : Array (Float × Float × Float) := #[]     -- coordinates of the state objects by label
 
-def numF : Num Float := { logf := Float.log, eps := epsF, big := bigF, zero := 0.0, idx := fun i => i.toFloat }
+def numF : Num Float :=
+  { logf := Float.log
+    eps := epsF
+    big := bigF
+    zero := 0.0
+    idx := fun i => i.toFloat
+    logDom := fun x => x > 0.0 || x.isNaN }
 /-- the scalar constants with the session's table of state coordinates -/
 def numS (stc : Array (Float × Float × Float)) : Num Float :=
   { numF with stXYZ := fun s => stc.getD s (s.toFloat, 0.0, 0.0) }
